@@ -22,7 +22,7 @@ META = {
     "REFERENCE error model with 5-point Jacobians, <= 10 tol chi2_final + floor; noise-free: every optimised pose (relative to the fixed first pose) equals ground truth within 1e-7. "
     "non-trivial = initial chi2 > 1e-6 (the run has to move)",
     "assumptions": ["claim limited to the calibrated neighbourhood and the listed families (undamped Gauss-Newton may legitimately diverge outside)", "reference error model + 5-point Jacobians + numpy solve trusted; the converged flag is C12's business"],
-    "required_classes": ["kind:SE2", "kind:SE3", "noise_free", "noisy", "landmarks_with_offset", "loop_closure", "tol:1e-10", "tol:0.001", "weak_information", "hist:two_stage", "hist:reanchor", "hist:shared_landmark_seed", "hist:two_sensors", "hist:two_components", "hist:landmark_first", "hist:reweighted", "hist:inplace_perturb"],
+    "required_classes": ["kind:SE2", "kind:SE3", "noise_free", "noisy", "landmarks_with_offset", "loop_closure", "tol:1e-10", "tol:0.001", "weak_information", "hist:two_stage", "hist:reanchor", "hist:shared_landmark_seed", "hist:two_sensors", "hist:two_components", "hist:landmark_first", "hist:reweighted", "hist:inplace_perturb", "hist:rotation_only_offsets", "hist:fixed_landmark", "hist:asymmetric_information"],
     "bounds": {"quick": "n in {3,6,12}", "thorough": "n in {3,6,12,24,40}"},
 }
 
@@ -50,7 +50,7 @@ def run_chunk(chunk, tier, seed):
                     _do(acc, {"kind": kind, "fam": fam, "n": n, "pert": pert, "noise": noise, "rad": rad, "tol": tol, "oscale": osc, "seed": seed})
                 if pert == "alt" and rad == 1.0:
                     # histories / object reuse: the judged run is not the first thing that happens to the Graph object
-                    for hist in ("two_stage", "reanchor", "shared_landmark_seed", "two_sensors", "two_components", "landmark_first", "reweighted", "inplace_perturb"):
+                    for hist in ("two_stage", "reanchor", "shared_landmark_seed", "two_sensors", "two_components", "landmark_first", "reweighted", "inplace_perturb", "rotation_only_offsets", "fixed_landmark", "asymmetric_information"):
                         _do(acc, {"kind": kind, "fam": fam, "n": n, "pert": pert, "noise": noise, "rad": rad, "tol": tol, "oscale": 1.0, "seed": seed, "hist": hist})
     return acc
 
@@ -208,6 +208,30 @@ def _eval_inner(case):
         spec["edges"] += extra_e
         truth = truth + extra_t
         ffp = True
+    if hist == "rotation_only_offsets":
+        # the sensor sits AT the vehicle origin but looks another way: offsets with zero lever arm and a rotation
+        kind = case["kind"]
+        offr = [0.0, 0.0, 0.5] if kind == "SE2" else [0.0, 0.0, 0.0] + SF.A.unit([0.2, -0.3, 0.1, 0.9])
+        tmap = {t[0]: t[2] for t in truth}
+        for e in spec["edges"]:
+            if e["type"] in ("lm", "numlm"):
+                e["off"] = list(offr)
+                sens = G.compose(kind, tmap[e["ids"][0]], offr)
+                e["z"] = G.act(kind, G.inverse(kind, sens), tmap[e["ids"][1]])
+    if hist == "fixed_landmark":
+        # a surveyed beacon: the first landmark is fixed at its true position and listed in the MIDDLE of the vertex list
+        tmap = {t[0]: t[2] for t in truth}
+        lms = [v for v in spec["vertices"] if v["id"] >= 1000]
+        lms[0]["pose"] = list(tmap[lms[0]["id"]])
+        lms[0]["fixed"] = True
+        rest = [v for v in spec["vertices"] if v is not lms[0]]
+        spec["vertices"] = rest[:2] + [lms[0]] + rest[2:]
+    if hist == "asymmetric_information":
+        # information matrices that are symmetric only up to round-off (as np.linalg.inv of a covariance returns them)
+        for e in spec["edges"]:
+            om = [list(r) for r in e["om"]]
+            om[0][1] = math.nextafter(om[0][1], math.inf)
+            e["om"] = om
     if hist == "landmark_first":
         # the vertex list starts with a landmark (seeded at its true position); the caller anchors a middle pose and leaves
         # fix_first_pose at True: exactly the first LISTED vertex (the landmark) and the marked pose are held
